@@ -100,6 +100,21 @@ def closed_form_named(rng):
     return out
 
 
+def huge_value_routines():
+    """Values beyond the range of a double (2**n at n = 1100, 0.5*k*10**n at n = 400 or 1100): still numbers to 15 significant digits."""
+    leaf = {"name": "lookup", "type": None, "input_params": ["n", "k"], "local_variables": [], "linked_params": [],
+            "ports": [{"name": "out_0", "direction": "output", "size": E.op("pow", E.num(2), E.sym("n"))}],
+            "resources": [{"name": "T", "type": "additive", "value": E.op("pow", E.num(2), E.sym("n"))},
+                          {"name": "Q", "type": "additive", "value": E.op("mul", E.op("mul", ["n", 1, 2, "float"], E.sym("k")), E.op("pow", E.num(10), E.sym("n")))},
+                          {"name": "info", "type": "other", "value": E.op("add", E.op("mul", E.sym("k"), E.sym("n")), E.num(1))}],
+            "connections": [], "repetition": None, "children": []}
+    root = {"name": "hugeroot", "type": None, "input_params": ["n", "k"], "local_variables": [],
+            "linked_params": [["n", [["lookup", "n"]]], ["k", [["lookup", "k"]]]],
+            "ports": [{"name": "out_0", "direction": "output", "size": None}], "resources": [], "connections": [["lookup.out_0", "out_0"]],
+            "repetition": None, "children": [leaf]}
+    return [root]
+
+
 def build_cases(rng, n, max_depth, p_rep=0.3, repeated_only=False):
     routines = []
     while len(routines) < n:
@@ -117,6 +132,7 @@ def build_cases(rng, n, max_depth, p_rep=0.3, repeated_only=False):
                                        "value": E.fun("f", arg) if which == "f" else E.fun("g", arg, E.num(rng.randint(1, 3)))})
             routines.append(r)
     routines += closed_form_named(rng)
+    routines += huge_value_routines()
     comp = lib.run_impl("hier-compile", [{"routine": r} for r in routines], per_case_timeout=60)
     cases = []
     for r, c in zip(routines, comp):
@@ -134,6 +150,9 @@ def build_cases(rng, n, max_depth, p_rep=0.3, repeated_only=False):
             fns = [[zf[0], rng.choice(["ceil3", "ceil3", "parity"]) if zf[0] == "f" else "floor3y"]]
             mode = rng.choice(["total", "partial"])
         assign = gen_assign(rng, params, mode, [f for f, _ in fns] if fns else (), big_ok=big_ok)
+        if r["name"] == "hugeroot":
+            fns, mode = None, "total"
+            assign = [["n", ["int", rng.choice([400, 1100])]], ["k", ["int", rng.randint(1, 9)]]]
         case = {"routine": r, "assign": assign, "mode": mode}
         if len(assign) >= 2:
             perm = list(assign)
